@@ -385,7 +385,10 @@ fn execute(p: &Plan, order: &[(usize, String)], concurrent: bool, seed: u64) -> 
         }
         let mut items = norm::normalise(SERVER_NAME, &all).items;
         items.sort();
-        digest.insert(c, items);
+        // an unregistered connection only ever gets 451: its "view" carries no information
+        if !items.iter().all(|i| i[1] == "451") {
+            digest.insert(c, items);
+        }
     }
     let _ = crate::sim::take_panics();
     Ok(RunInfo { outcome: Outcome { replies, relays, digest, eof }, log, yields_taken, raw })
@@ -740,6 +743,7 @@ pub fn run(ctx: &RunCtx) -> Vec<PartOutcome> {
     vec![
         explore_with(ctx, "bursts", ctx.tier.pick(2_000, 40_000), 24, burst_strat, check_burst),
         explore_with(ctx, "pipelines", ctx.tier.pick(1_500, 25_000), 300, pipe_strat, check_pipeline),
+        explore_with(ctx, "bursts_parallel", ctx.tier.pick(400, 8_000), 12, burst_strat, check_burst_mt),
     ]
 }
 
@@ -747,6 +751,321 @@ pub fn replay(part: &str, input: &Value) -> Option<Result<Result<(), Viol>, Stri
     match part {
         "bursts" => Some(replay_input::<BurstCase>(input, check_burst)),
         "pipelines" => Some(replay_input::<PipeCase>(input, check_pipeline)),
+        "bursts_parallel" => Some(replay_input::<BurstCase>(input, check_burst_mt)),
         _ => None,
     }
+}
+
+// ---------------------------------------------------------------------------------------------
+// MT part: the same bursts executed with true parallelism (multi-thread runtime, real time);
+// the oracle is still "some sequential order, replayed deterministically on the SIM engine,
+// gives the same outcome".
+
+use crate::sim::MtWorld;
+use std::time::Duration;
+
+const WAIT: Duration = Duration::from_secs(4);
+
+fn mt_line_barrier(w: &mut MtWorld, c: usize, line: &str, tok: &str) -> bool {
+    // send `line` followed by PING tok and wait for the PONG (or 451 if unregistered / EOF)
+    let start = w.conns[c].lines.len();
+    w.send_bytes(c, format!("{}\r\nPING {}\r\n", line, tok).as_bytes());
+    let t = tok.to_string();
+    w.read_until(c, WAIT, &move |ls: &[String]| ls[start.min(ls.len())..].iter().any(|l| (l.contains(" PONG ") && l.ends_with(&format!(":{}", t))) || l.contains(" 451 ")))
+        || w.conns[c].eof
+}
+
+// flush every registered connection's queue: a self-addressed PRIVMSG travels through the
+// connection's own FIFO queue, so once it is read everything queued before has been read
+fn mt_flush_queues(w: &mut MtWorld, nick: &mut Vec<Option<String>>, mark: &[usize], tagbase: &str, artefacts: &mut Vec<(usize, String)>) -> bool {
+    for c in 0..w.conns.len() {
+        if w.conns[c].eof {
+            continue;
+        }
+        for attempt in 0..4 {
+            for l in w.conns[c].lines[mark[c].min(w.conns[c].lines.len())..].to_vec() {
+                if let Ok(m) = refparse::parse(&l) {
+                    if m.command == "001" {
+                        nick[c] = m.params.get(0).cloned();
+                    } else if m.command == "NICK" {
+                        if let (Some(src), Some(cur)) = (m.source.as_ref(), nick[c].as_ref()) {
+                            if src.split('!').next() == Some(cur.as_str()) {
+                                nick[c] = m.params.get(0).cloned();
+                            }
+                        }
+                    }
+                }
+            }
+            let Some(n) = nick[c].clone() else { break };
+            let tag = format!("__barrier{}{}_{}", tagbase, c, attempt);
+            let before = w.conns[c].lines.len();
+            w.send_bytes(c, format!("PRIVMSG {} :{}\r\n", n, tag).as_bytes());
+            let t2 = tag.clone();
+            let ok = w.read_until(c, WAIT, &move |ls: &[String]| ls[before.min(ls.len())..].iter().any(|l| l.ends_with(&t2) || l.contains(" 401 ") || l.contains(" 451 ")));
+            if !ok {
+                if w.conns[c].eof {
+                    break;
+                }
+                return false;
+            }
+            if w.conns[c].lines[before..].iter().any(|l| l.ends_with(&tag) || l.contains(" 451 ")) {
+                break;
+            }
+            // the 401 answer to a barrier sent under a stale nick is an artefact of the barrier
+            artefacts.push((c, n));
+        }
+    }
+    true
+}
+
+fn execute_mt(p: &Plan, workers: usize) -> Result<Option<RunInfo>, Viol> {
+    let mut w = MtWorld::new(p.cfg.to_main_config(), workers);
+    crate::sim::MT_PANICS.lock().unwrap().clear();
+    let mut log: Vec<String> = vec![];
+    for _ in 0..p.nconns {
+        w.connect();
+    }
+    // nick each connection believes to own (for the queue barrier)
+    let mut nick: Vec<Option<String>> = vec![None; p.nconns];
+    for (k, (c, l)) in p.prefix.iter().enumerate() {
+        if !mt_line_barrier(&mut w, *c, l, &format!("pre{}", k)) {
+            return Ok(None);
+        }
+        if let Some(n) = l.strip_prefix("NICK ") {
+            nick[*c] = Some(n.to_string());
+        }
+    }
+    // flush the queues (relays caused by the prefix), then forget everything received so far
+    let zero: Vec<usize> = vec![0; p.nconns];
+    let mut artefacts: Vec<(usize, String)> = vec![];
+    if !mt_flush_queues(&mut w, &mut nick, &zero, "p", &mut artefacts) {
+        return Ok(None);
+    }
+    let mark: Vec<usize> = (0..p.nconns).map(|c| w.conns[c].lines.len()).collect();
+    // the burst: every connection's lines in one write, all written back to back
+    let mut blobs: std::collections::BTreeMap<usize, String> = Default::default();
+    for (c, l) in &p.burst {
+        let b = blobs.entry(*c).or_default();
+        b.push_str(l);
+        b.push_str("\r\n");
+        log.push(format!("c{} > {}", c, l));
+    }
+    let order: Vec<usize> = {
+        let mut v = vec![];
+        for (c, _) in &p.burst {
+            if !v.contains(c) {
+                v.push(*c);
+            }
+        }
+        v
+    };
+    for c in &order {
+        let blob = format!("{}PING end{}\r\n", blobs[c], c);
+        w.send_bytes(*c, blob.as_bytes());
+    }
+    // phase 1: every bursting connection has seen the reply to its final PING
+    for c in &order {
+        let m = mark[*c];
+        let tok = format!(":end{}", c);
+        let ok = w.read_until(*c, WAIT, &move |ls: &[String]| ls[m.min(ls.len())..].iter().any(|l| (l.contains(" PONG ") && l.ends_with(&tok)) || l.contains(" 451 ")));
+        if !ok && !w.conns[*c].eof {
+            return Ok(None);
+        }
+    }
+    // phase 2: flush every registered connection's queue with a self-addressed message
+    artefacts.clear();
+    if !mt_flush_queues(&mut w, &mut nick, &mark, "b", &mut artefacts) {
+        return Ok(None);
+    }
+    let mut raw: BTreeMap<usize, Vec<String>> = BTreeMap::new();
+    for c in 0..p.nconns {
+        let ls: Vec<String> = w.conns[c].lines[mark[c]..]
+            .iter()
+            .filter(|l| !(l.contains("__barrier") || (l.contains(" PONG ") && l.contains(":end")) || (l.contains(" 401 ") && false)))
+            .cloned()
+            .collect();
+        // the 451 answer to the final PING of an unregistered connection and 401 answers to
+        // barrier retries are artefacts of the barrier
+        let mut ls2 = vec![];
+        let mut dropped_451 = false;
+        for l in ls.into_iter().rev() {
+            if !dropped_451 && l.contains(" 451 ") && order.contains(&c) {
+                dropped_451 = true;
+                continue;
+            }
+            ls2.push(l);
+        }
+        ls2.reverse();
+        for (ac, an) in &artefacts {
+            if *ac == c {
+                if let Some(pos) = ls2.iter().rposition(|l| l.contains(" 401 ") && l.contains(&format!(" {} :", an))) {
+                    ls2.remove(pos);
+                }
+            }
+        }
+        for l in &ls2 {
+            log.push(format!("c{} < {}", c, l));
+        }
+        raw.insert(c, ls2);
+    }
+    {
+        let pans = crate::sim::MT_PANICS.lock().unwrap();
+        if let Some(pn) = pans.iter().find(|p| p.loc.contains("/src/state/") && !p.loc.contains("structs.rs")) {
+            return Err(Viol::new("C18.handler_abort", format!("panic:mt:{}", p.kind), format!("a handler aborted during the parallel burst: {} at {}", pn.msg, pn.loc)).with_transcript(log.clone()));
+        }
+    }
+    let mut replies: BTreeMap<usize, Vec<String>> = BTreeMap::new();
+    let mut relays: BTreeMap<(String, usize), Vec<String>> = BTreeMap::new();
+    let server_prefix = format!(":{} ", SERVER_NAME);
+    for (c, ls) in &raw {
+        for l in ls {
+            let Some(n) = light(l) else { continue };
+            if l.starts_with(&server_prefix) {
+                replies.entry(*c).or_default().push(n);
+            } else {
+                let src = l[1..].split(' ').next().unwrap_or("").to_string();
+                relays.entry((src, *c)).or_default().push(n);
+            }
+        }
+    }
+    let mut eof = BTreeSet::new();
+    for c in 0..p.nconns {
+        if w.conns[c].eof {
+            eof.insert(c);
+        }
+    }
+    // digest with a barrier per query
+    let mut digest = BTreeMap::new();
+    for c in 0..p.nconns {
+        if eof.contains(&c) {
+            continue;
+        }
+        let from = w.conns[c].lines.len();
+        let mut k = 0;
+        let mut qs: Vec<String> = DIGEST_QUERIES.iter().map(|s| s.to_string()).collect();
+        for extra in ["#new", "#lim", "#m", "#k", "#q", "#e", "#v"] {
+            qs.push(format!("MODE {}", extra));
+            qs.push(format!("TOPIC {}", extra));
+        }
+        for q in qs {
+            k += 1;
+            if !mt_line_barrier(&mut w, c, &q, &format!("dg{}", k)) {
+                return Ok(None);
+            }
+        }
+        // remove the barrier answers: PONG dgN, and for unregistered connections one 451 per PING
+        let registered = nick[c].is_some() && !w.conns[c].lines[from..].iter().all(|l| l.contains(" 451 "));
+        let mut all: Vec<String> = vec![];
+        let mut skip_451 = 0usize;
+        for l in &w.conns[c].lines[from..] {
+            if l.contains(" PONG ") && l.contains(":dg") {
+                continue;
+            }
+            if !registered && l.contains(" 451 ") {
+                // two 451 per query (the query and its PING): keep the first of each pair
+                skip_451 += 1;
+                if skip_451 % 2 == 0 {
+                    continue;
+                }
+            }
+            all.push(l.clone());
+        }
+        let mut items = norm::normalise(SERVER_NAME, &all).items;
+        items.sort();
+        if !items.iter().all(|i| i[1] == "451") {
+            digest.insert(c, items);
+        }
+    }
+    Ok(Some(RunInfo { outcome: Outcome { replies, relays, digest, eof }, log, yields_taken: 0, raw }))
+}
+
+pub fn check_burst_mt(c: &BurstCase, st: &mut Stats) -> Result<(), Viol> {
+    let p = plan(&c.seeds);
+    if p.kind == "kill-vs-activity" {
+        st.count("excluded_known_finding_F11");
+        return Ok(());
+    }
+    let seed = c.seeds.get(1).copied().unwrap_or(0) as u64;
+    let workers = 2 + (seed as usize % 7);
+    let Some(conc) = execute_mt(&p, workers)? else {
+        st.count("inconclusive_realtime_wait");
+        return Ok(());
+    };
+    st.count(&format!("kind.{}", p.kind));
+    let mut per_conn: BTreeMap<usize, Vec<String>> = BTreeMap::new();
+    for (cc, l) in &p.burst {
+        per_conn.entry(*cc).or_default().push(l.clone());
+    }
+    const CAP: usize = 150;
+    let perms = interleavings(&per_conn, CAP);
+    let capped = perms.len() >= CAP;
+    let mut tried = 0;
+    let mut matched = false;
+    let mut first_diff: Vec<String> = vec![];
+    for perm in &perms {
+        tried += 1;
+        let seq = execute(&p, perm, false, seed)?;
+        if seq.outcome == conc.outcome {
+            matched = true;
+            break;
+        }
+        if std::env::var("VERIF_DEBUG_C18").is_ok() {
+            eprintln!("order {:?}: replies_eq={} relays_eq={} digest_eq={} eof_eq={}", perm.iter().map(|x| x.0).collect::<Vec<_>>(), seq.outcome.replies == conc.outcome.replies, seq.outcome.relays == conc.outcome.relays, seq.outcome.digest == conc.outcome.digest, seq.outcome.eof == conc.outcome.eof);
+            for (k, v) in &conc.outcome.digest {
+                if seq.outcome.digest.get(k) != Some(v) {
+                    let a: BTreeSet<String> = v.iter().map(norm::show).collect();
+                    let b: BTreeSet<String> = seq.outcome.digest.get(k).map(|x| x.iter().map(norm::show).collect()).unwrap_or_default();
+                    eprintln!("   digest c{}: len {} vs {}; only parallel {:?} / only sequential {:?}", k, v.len(), seq.outcome.digest.get(k).map_or(0, |x| x.len()), a.difference(&b).collect::<Vec<_>>(), b.difference(&a).collect::<Vec<_>>());
+                }
+            }
+        }
+        if first_diff.is_empty() {
+            for (k, v) in &conc.outcome.replies {
+                if seq.outcome.replies.get(k) != Some(v) {
+                    first_diff.push(format!("replies of c{}: parallel {:?} / sequential {:?}", k, v, seq.outcome.replies.get(k)));
+                }
+            }
+            for (k, v) in &conc.outcome.relays {
+                if seq.outcome.relays.get(k) != Some(v) {
+                    first_diff.push(format!("relays {:?}: parallel {:?} / sequential {:?}", k, v, seq.outcome.relays.get(k)));
+                }
+            }
+            for (k, v) in &seq.outcome.relays {
+                if !conc.outcome.relays.contains_key(k) {
+                    first_diff.push(format!("relays {:?}: parallel None / sequential {:?}", k, v));
+                }
+            }
+            for (k, v) in &conc.outcome.digest {
+                if seq.outcome.digest.get(k) != Some(v) {
+                    let a: BTreeSet<String> = v.iter().map(norm::show).collect();
+                    let b: BTreeSet<String> = seq.outcome.digest.get(k).map(|x| x.iter().map(norm::show).collect()).unwrap_or_default();
+                    first_diff.push(format!("final state seen by c{}: only parallel {:?} / only sequential {:?}", k, a.difference(&b).collect::<Vec<_>>(), b.difference(&a).collect::<Vec<_>>()));
+                }
+            }
+            if conc.outcome.eof != seq.outcome.eof {
+                first_diff.push(format!("closed connections: parallel {:?} / sequential {:?}", conc.outcome.eof, seq.outcome.eof));
+            }
+        }
+    }
+    st.add("sequential_replays", tried as u64);
+    st.nontrivial(format!("{}|w{}|{:?}", p.kind, workers, p.burst.iter().map(|b| b.0).collect::<Vec<_>>()), || {
+        json!({"kind": p.kind, "workers": workers, "burst": p.burst.iter().map(|(c, l)| format!("c{}: {}", c, l)).collect::<Vec<_>>(), "sequential_orders_tried": tried})
+    });
+    if !matched {
+        if capped {
+            st.count("inconclusive_interleaving_cap");
+            return Ok(());
+        }
+        let mut t = conc.log.clone();
+        t.push(format!("-- no sequential order of the {} burst commands ({} tried, replayed on the SIM engine) reproduces the parallel outcome; differences to the first order:", p.burst.len(), tried));
+        t.extend(first_diff.into_iter().take(14));
+        return Err(Viol::new(
+            "C18.linearizable",
+            format!("not-linearizable:mt:{}", p.kind),
+            format!("parallel burst `{}` ({}, {} worker threads): outcome matches no sequential execution", p.burst.iter().map(|(c, l)| format!("c{}:{}", c, l)).collect::<Vec<_>>().join(" | "), p.kind, workers),
+        )
+        .with_transcript(t));
+    }
+    crate::sim::set_in_sim(false);
+    Ok(())
 }
